@@ -51,10 +51,10 @@ Qed.
 Lemma sweep_legal st now mn mx chosen w fr :
   legal st now (Job JDeadLetterSweep mn mx chosen false w fr) ->
   choice_legal (job_matches st JDeadLetterSweep now mn) chosen mx = true /\
-  snd (sweep_each st (sort_ids chosen) w fr) = [].
+  snd (sweep_each st chosen w fr) = [].
 Proof.
   unfold legal. cbn [step]. unfold run_job. cbv beta iota zeta.
-  destruct (sweep_each st (sort_ids chosen) w fr) as [[[st1 fr1] w1] n1].
+  destruct (sweep_each st chosen w fr) as [[[st1 fr1] w1] n1].
   cbn [r_notes done snd]. intros H. apply app_eq_nil in H. destruct H as [H1 H2].
   apply app_eq_nil in H2. destruct H2 as [H2 _]. split; [|exact H2].
   destruct (choice_legal (job_matches st JDeadLetterSweep now mn) chosen mx);
@@ -63,10 +63,10 @@ Qed.
 
 Lemma sweep_post st now mn mx chosen w fr :
   post st now (Job JDeadLetterSweep mn mx chosen false w fr) =
-  fst (fst (fst (sweep_each st (sort_ids chosen) w fr))).
+  fst (fst (fst (sweep_each st chosen w fr))).
 Proof.
   unfold post. cbn [step]. unfold run_job. cbv beta iota zeta.
-  destruct (sweep_each st (sort_ids chosen) w fr) as [[[st1 fr1] w1] n1]. reflexivity.
+  destruct (sweep_each st chosen w fr) as [[[st1 fr1] w1] n1]. reflexivity.
 Qed.
 
 Lemma sweep_due st now mn mx chosen d :
